@@ -17,7 +17,22 @@ ASSUMPTIONS = [
 ]
 PROP_ASSUMPTIONS = {}
 BOUNDED = {}
-NOT_UNDER_CONTRACT = {}
+_NUC_VEC = ['Vector constructors from iterator ranges that are not pointers; reverse iterators (rbegin/rend/crbegin/crend); operator<=> (C++20); swap2 with size types other than 8/16 bit',
+            'allocators other than amc::allocator (the allocate-relocate-deallocate path is exercised through the non trivially relocatable category only); element types with throwing moves; 32/64-bit and signed size types of the vectors']
+_NUC_FS = ['FlatSet: <, <=, >, >=, <=>; at / operator[] / front / back / data; reverse iterators; heterogeneous (transparent) lookups; insert(initializer_list), operator=(initializer_list), operator=(vector&&) (same code path as the bounded insert(first,last) / construction from a vector); copy assignment',
+           'FlatSet merge x2, insert(first,last), construction from a vector: bounded stand-ins only (see coverage.bounded)']
+_NUC_SS = ['SmallSet: comparison operators (is_permutation, lambdas, std::visit), insert(first,last), insert(initializer_list), constructors / destructor / copy / move, the std::set-backed instantiation (variant iterators), rbegin/rend',
+           'SmallSet::merge: bounded stand-in only (see coverage.bounded); SmallSet large state = abstract SetSpec (FlatSet single-element operations are proved against the same step function in the fs.* units)']
+NOT_UNDER_CONTRACT = {
+    'C01': _NUC_VEC, 'C02': _NUC_VEC + _NUC_FS + _NUC_SS, 'C05': _NUC_VEC[1:] + _NUC_SS, 'C06': _NUC_VEC[1:], 'C07': _NUC_VEC, 'C08': _NUC_VEC, 'C09': _NUC_VEC + _NUC_FS[:1] + _NUC_SS[:1],
+    'C10': _NUC_VEC[:1], 'C13': ['swap2: 32/64-bit and signed size types; allocator types other than amc::allocator (a second allocator type is not in the instantiation matrix)'],
+    'C03': _NUC_FS, 'C12': ['emplace_hint / insert(hint, node) for the 32-bit FlatSet run in the thorough tier only'], 'C19': _NUC_FS[:1],
+    'C04': _NUC_SS, 'C11': _NUC_SS[:1] + ['walking begin()..end() visits every element exactly once: stated per call (begin/end/erase/find results), not as a whole-traversal contract'],
+    'C14': ['forward direction: relocation lemma on the three vector bases (the sets inherit it through their parts); converse direction: 60 instantiations of the static.traits unit'],
+    'C15': ['iterator categories other than pointers (forward / bidirectional / move_iterator sources); uninitialized_copy / uninitialized_move / uninitialized_relocate / uninitialized_value_construct / uninitialized_default_construct over [first,last) (lowered, reached through the _n forms only); array overloads of construct_at / destroy_at'],
+    'C16': ['-O0 vs -O2 and pedantic mode are outside what a source-level contract can see; configurations: C++11, C++14 (assertions on, extras off), C++17 (NDEBUG, extras on), C++20; non-pointer iterator categories not instantiated'],
+    'C18': _NUC_VEC[1:], 'C20': ['const members that are not lowered (reverse iterators, comparison operators of SmallSet, heterogeneous lookups)'],
+}
 LOWERING_DROPS = [
     'templates (finite instantiation matrix; inline capacity N stays symbolic in the base classes)',
     'access control, inline/constexpr, attributes; noexcept values are evaluated by the real compiler and kept as facts',
